@@ -94,7 +94,8 @@ def _winit(repo):
 
 def _wtask(task):
     """task = (w, s, rows [(lit1, lit2)], script) -> (outcome kind, detail, {id: [cells]})"""
-    w, s, rows, script = task
+    w, s, rows, script = task[:4]
+    form = task[4] if len(task) > 4 else 'csv'
     eng, run, C = _W['eng'], _W['run'], _W['C']
     C.DECIMAL_WIDTH, C.DECIMAL_SCALE = C.DEFAULT_DECIMAL_WIDTH, C.DEFAULT_DECIMAL_SCALE
     set_env(w, s)
@@ -108,7 +109,12 @@ def _wtask(task):
                                                    eng.comp('Me_2', 'Number', 'Measure')]))
         signal.alarm(150)
         try:
-            r = eng.outcome(run, script, ds, {'DS_1': p}, output_folder=out)
+            if form == 'df':       # the same numbers as a float64 DataFrame column
+                import pandas as pd
+                dp = {'DS_1': pd.DataFrame({'Id_1': list(range(len(rows))), 'Me_1': [float(a) for a, _ in rows], 'Me_2': [float(b) for _, b in rows]})}
+            else:
+                dp = {'DS_1': p}
+            r = eng.outcome(run, script, ds, dp, output_folder=out)
         finally:
             signal.alarm(0)
         cells = {}
@@ -387,6 +393,17 @@ def main(ck):
     # ------------------------------------------------------------------ 4. through run(): CSV in, CSV out, sums / differences
     import multiprocessing as mp
     # settings given as disable value / unset, and the witnesses of the two acceptance defects
+    # float64 DataFrame input: numbers with at most 15 significant digits are exactly the decimal their shortest repr shows,
+    # so they must be stored (and added / subtracted) like the same numbers read from CSV text
+    for (w3, s3) in [(None, None), (28, 8), (38, 12)]:
+        sc = dflt[1] if s3 is None else s3
+        rows_df = [('665911.56', '665911'), ('90540995.8621', '90540995'), ('123456.789', '0.001'), ('1234567.25', '0.75'), ('0.1', '0.2')]
+        for _ in range(12 if ck.quick() else 60):
+            ip = rng.choice([5, 6, 7, 8, 9])
+            fd = rng.choice([1, 2, 3, 4])
+            a = str(rng.randint(10 ** (ip - 1), 10 ** ip - 1)) + '.' + ''.join(rng.choice('0123456789') for _ in range(fd - 1)) + rng.choice('123456789')
+            rows_df.append((a, a.split('.')[0]))
+        tasks.append((w3, s3, rows_df, 'DS_r <- DS_1[calc Me_3 := Me_1 + Me_2, Me_4 := Me_1 - Me_2];', 'df')); meta.append(('df-arith', None, sc, rows_df))
     tasks.append((-1, -1, [('1.0000000000000005', '2')], 'DS_r <- DS_1;')); meta.append(('disable', 38, 15, [('1.0000000000000005', '2')]))
     tasks.append((None, None, [('0.12345678905', '2')], 'DS_r <- DS_1;')); meta.append(('unset', dflt[0], dflt[1], [('0.12345678905', '2')]))
     tasks.append((45, None, [('0.5', '2')], 'DS_r <- DS_1;')); meta.append(('witness45', None, None, None))
@@ -446,6 +463,23 @@ def main(ck):
                         else:
                             ck.violation('run:sum-or-difference-not-exact', {'setting': [w2, s2], 'input': rows[ri], 'column': col, 'output': got.get(col), 'expected': v},
                                          '%s of %s: run() gives %s, exact decimal arithmetic %s' % ('sum' if col == 'Me_3' else 'difference', rows[ri], got.get(col), v))
+        elif kind == 'df-arith':
+            if rk != 'ok':
+                ck.violation('run:fails-under-accepted-setting:%s' % (det[0] if det else '?'), {'setting': tasks[ti][:2], 'rows': rows, 'outcome': det, 'input_form': 'float64 DataFrame'},
+                             'run() on a float64 DataFrame fails under an accepted, usable setting')
+                continue
+            qz = lambda x: Decimal(x).quantize(Decimal(1).scaleb(-s2), rounding='ROUND_HALF_UP')      # noqa: E731
+            fm = lambda d: format(abs(d) if d == 0 else d, 'f')                                            # noqa: E731
+            for ri, (a, b) in enumerate(rows):
+                e = {'Me_1': fm(qz(a)), 'Me_2': fm(qz(b)), 'Me_3': fm(qz(a) + qz(b)), 'Me_4': fm(qz(a) - qz(b))}
+                got = cells.get(ri, {})
+                for col, v in e.items():
+                    rstats['cells_compared'] += 1
+                    if got.get(col) is None or Decimal(got.get(col)) != Decimal(v):
+                        ck.violation('run:dataframe-float-input:%s' % ('stored-number-not-rounded-to-scale' if col in ('Me_1', 'Me_2') else 'sum-or-difference-not-exact'),
+                                     {'setting': tasks[ti][:2], 'input': rows[ri], 'input_form': 'float64 DataFrame', 'column': col, 'output': got.get(col), 'expected': v},
+                                     'float64 DataFrame input %s: column %s is %s, exact decimal arithmetic at scale %s gives %s' % (rows[ri], col, got.get(col), s2, v))
+                        break
         elif kind == 'overflow':
             if rk == 'ok':
                 ck.violation('run:value-beyond-precision-accepted', {'setting': [w2, s2], 'input': rows, 'cells': cells},
